@@ -8,6 +8,8 @@
 //	partial-answer   F82  clntQuerier.Query drops the decoding error: a partly decoded answer is handed over as success with
 //	                      a prefix of the events and a zero next request
 //	statefile        F83  forwarder.json is truncated and re-written in place (same root and repair as C17's F60)
+//	buffer-reused    —    (no finding; correspondence of the client's contract) what clntQuerier.Query hands over must not
+//	                      point into the response buffer it gives back to the transport's pool
 package main
 
 import (
@@ -251,6 +253,39 @@ func runLeadPartial(in leadInput) {
 	}
 }
 
+// the answer must outlive the response buffer: the forwarder gives ONE client to all its workers and the buffer pools are
+// process-wide, so while one worker's sink is busy with a batch the answer for another worker is read into the buffer
+// the client has collected
+func runLeadBufferReused(in leadInput) {
+	full := api.QueryResult{NextQueryRequest: api.QueryRequest{ReqId: 77, Query: "select from a=b position \"x\"", Pos: "x", Limit: 10, WaitTimeout: 3}}
+	for i := 0; i < 5; i++ {
+		full.Events = append(full.Events, &api.LogEvent{Timestamp: int64(i + 1), Tags: "a=b,c=d", Message: fmt.Sprintf("event number %d of the first answer", i), Fields: fmt.Sprintf("f=%d", i)})
+	}
+	body := rpc.VerifC18EncodeQueryResult(&full)
+	var r api.QueryResult
+	collected, err := rpc.VerifC18ClientQueryBufferReused(body, &r)
+	if err != nil || r.Err != nil {
+		leadFail(in, "complete-answer-not-decoded", "", fmt.Sprintf("err=%v res.Err=%v", err, r.Err), "5 events", "a complete answer must be decoded")
+		return
+	}
+	if collected == 0 {
+		res.Note("leads/buffer-reused: the client did not give the response buffer back (Collect not called): nothing to observe")
+	}
+	// clone the strings' bytes now: compare content, not headers
+	show := func(q *api.QueryResult) string {
+		var sb strings.Builder
+		for _, e := range q.Events {
+			fmt.Fprintf(&sb, "{%d %q %q %q} ", e.Timestamp, e.Tags, e.Message, e.Fields)
+		}
+		fmt.Fprintf(&sb, "next={%d %q %q %d}", q.NextQueryRequest.ReqId, q.NextQueryRequest.Query, q.NextQueryRequest.Pos, q.NextQueryRequest.Limit)
+		return sb.String()
+	}
+	if got, want := show(&r), show(&full); got != want {
+		leadFail(in, "answer-points-into-collected-buffer", "", got, want,
+			"clntQuerier.Query gave the response buffer back to the transport (Collect) and the buffer was used again: the events / next request it handed over changed — a sink that is still working on the batch (another worker's answer arrives on the shared client) is handed foreign bytes, accepts them, and the position moves on")
+	}
+}
+
 // F83: forwarder.json
 func runLeadStatefile(srv *lrsrv.Srv, in leadInput, seq int) {
 	src := fmt.Sprintf("leadsrc=s%d", seq)
@@ -356,6 +391,8 @@ func runLead(srv *lrsrv.Srv, in leadInput) {
 		runLeadPartial(in)
 	case "statefile":
 		runLeadStatefile(srv, in, seq)
+	case "buffer-reused":
+		runLeadBufferReused(in)
 	default:
 		res.Note("leads: unknown kind %q", in.Kind)
 	}
@@ -366,6 +403,7 @@ const leadsRule = "deterministic schedules on the real forwarder session (StartV
 	"ensure-error — the first EnsurePipe returns an error; in both the harness then ensures the pipe itself and writes 5 events into the source: within 12 s (two retry periods) they must reach the sink; " +
 	"partial-answer — the real client-side Query over a transport that delivers every proper prefix of an encoded 4-event answer: a body that cannot be decoded completely must not be handed over as a success; " +
 	"statefile — real file storage; the way WriteData replaces forwarder.json is observed through a hard link; if in place, the states a crash during a save passes through (empty, a prefix) are installed and a new session is started: nothing may be re-delivered and it must start. " +
+	"buffer-reused — the real client-side Query over a transport that overwrites the response buffer as soon as the client has collected it (what the process-wide buffer pool does when the next answer arrives on the shared client): the events and the next request handed over must still say what the server sent. " +
 	"Each with its control (no failure; complete body; complete state file). The witnesses of the open findings come from the corpus. non-trivial = every schedule"
 
 func sectionLeads() {
@@ -378,6 +416,7 @@ func sectionLeads() {
 	for _, k := range []string{"ensure-swallowed", "partial-answer", "statefile"} {
 		ins = append(ins, leadInput{Kind: k, Control: true})
 	}
+	ins = append(ins, leadInput{Kind: "buffer-reused"})
 	srv, err := lrsrv.Start(lrsrv.NewDir(), lrsrv.Opts{})
 	if err != nil {
 		res.Note("leads: %v", err)
